@@ -37,10 +37,24 @@ RULE = ('cases = calls of the real functions through the public names, positiona
         'the range of narrow dtypes), arange, lists and tuples of floats, ints or both (c_h_factor); classes C D E (default '
         'and keyword); Z R N uniform in their code ranges, also Python ints and N = 1; displacement as float / np.float64 / '
         'np.float32 / int 0. Every array argument is also passed as strided / reversed / Fortran-ordered view and read-only. '
-        'A few inputs past 2**16 per run (queries, nodes, series, period arrays). One object for two parameters (nodes as '
+        'Sizes of every vector argument (nodes, queries, periods) also 1, 2 and 31..33, 63..65, 127..129, 256; queries and periods '
+        'unsorted, ascending, descending and with repeated entries; repeated nodes (monotone, not strictly increasing); one table '
+        'row / one sample 1e3..1e12 times larger than the rest; series shapes: monotone, one-sided negative, exact zeros inside, '
+        'alternating (Nyquist), tail-heavy, a single step between constant sides (also at the first / last position), a single '
+        'changed sample, non-zero ends; periods recovered from float quotients ((b/k)*k); window widths from dt/(dt/k); Z, R, N '
+        'at the ends of their ranges, Z*R above and exactly at 0.7; n x m products past 2**22 (2049 queries x 2049 nodes, '
+        'step fit of 2049 samples). A few inputs past 2**16 per run (queries, nodes, series, period arrays). One object for two parameters (nodes as '
         'queries / values), the same object in consecutive calls, two inputs of one shape back to back. A fixed grid of '
         '[0, 6.5] s (distinct by construction) is scanned for jumps with bisection down to 1e-12.')
-ASSUMPTIONS = ['node sets strictly increasing and finite (duplicates / unsorted nodes are counted, not judged)',
+ASSUMPTIONS = ['node sets finite and monotone; unsorted node sets are counted, not judged; repeated nodes: interp_left may take the '
+               'value of any of the equal nodes; interp2d with a repeated node is outside the "node sets" of the statement '
+               '(coordinator ruling): generated, counted, only purity / no-exception / repeatability apply; strictly decreasing node '
+               'sets are not handled by either function on the clean tree (wrong side / rejected): generated and counted only',
+               'tolerances are local: interp2d relative to the rows entering the value and their neighbours, step levels relative '
+               'to the largest sample of their side; the rolling average and the step-fit error stay relative to the global scale '
+               'of the series (largest partial sum / n*max|x|^p) because the anchored algorithms (running-sum differences, padded '
+               'triangle sums) cannot be more accurate than that - valid for every amplitude 1e-12..1e12 and offset generated',
+               'a window width that is not integer-valued (dt/(dt/k) a hair off k) is outside "window sizes 1..len": counted only',
                'interp2d arguments are numpy arrays with a 2-d table (its documented signature)',
                'interp_left queries below the first node are rejected by the function (outside the domain)',
                'centred window of even size: the statement does not fix the side of the extra sample, either is accepted '
@@ -236,7 +250,28 @@ def _floats(a):
 
 # ============================================================================================== monitors: interpolation
 def _nodes_ok(nodes):
+    """finite and strictly increasing"""
     return len(nodes) >= 1 and all(math.isfinite(v) for v in nodes) and all(b > a for a, b in zip(nodes, nodes[1:]))
+
+
+def _nodes_monotone(nodes):
+    """finite and non-decreasing (repeated nodes allowed)"""
+    return len(nodes) >= 1 and all(math.isfinite(v) for v in nodes) and all(b >= a for a, b in zip(nodes, nodes[1:]))
+
+
+def _nodes_decreasing(nodes):
+    return len(nodes) >= 2 and all(math.isfinite(v) for v in nodes) and all(b < a for a, b in zip(nodes, nodes[1:]))
+
+
+# Ruling of the coordinator: a table with a repeated abscissa is outside the "node sets" of the statement (no defined value
+# at that node) -> generated and counted, not judged ('judge' would compare with the piecewise-linear function with a jump).
+REPEATED_NODES_INTERP2D = 'observe'
+OBS_REPEATED = ('interp2d: repeated node (outside "node sets", not judged; the library brackets the query with the two copies '
+                'of the node and returns the row of the second copy for queries nearer to the repeated node than to the next)')
+OBS_DECREASING2D = ('interp2d: strictly decreasing node set (not handled by the library: nearest-node bracketing assumes '
+                    'increasing nodes and returns rows of the wrong side; not judged)')
+OBS_DECREASING_LEFT = ('interp_left: strictly decreasing node set (not handled by the library: queries below x[0] are '
+                       'rejected, the others get the last node; not judged)')
 
 
 def check_interp2d(ctx, x, xf, f, result):
@@ -247,11 +282,22 @@ def check_interp2d(ctx, x, xf, f, result):
         return
     nodes = _floats(xf)
     qs = _floats(x)
-    if not _nodes_ok(nodes) or not all(math.isfinite(q) for q in qs) or not np.all(np.isfinite(f)):
-        ctx.observe('interp2d: nodes not strictly increasing / non-finite input (not judged)')
+    if _nodes_decreasing(nodes):
+        ctx.observe(OBS_DECREASING2D)
         return
+    if not _nodes_monotone(nodes) or not all(math.isfinite(q) for q in qs) or not np.all(np.isfinite(f)):
+        ctx.observe('interp2d: nodes not monotone / non-finite input (not judged)')
+        return
+    if not _nodes_ok(nodes):
+        if REPEATED_NODES_INTERP2D != 'judge':
+            ctx.observe(OBS_REPEATED)
+            return
+        ctx.observe('interp2d: repeated node (judged)')
     table = [[float(v) for v in row] for row in f.tolist()]
-    ref = np.array(O.interp_table(qs, nodes, table), dtype=float).reshape(len(qs), f.shape[1])
+    vals, scales, alts = O.interp_table_local(qs, nodes, table)
+    ref = np.array(vals, dtype=float).reshape(len(qs), f.shape[1])
+    # tolerance relative to the LOCAL scale: the rows that enter the value (and their neighbours), not the whole column
+    loc = np.array(scales, dtype=float).reshape(len(qs), f.shape[1])
     got = np.asarray(result)
     wit = lambda: {'fn': 'interp2d', 'x': x, 'xf': xf, 'f': f, 'got': got, 'expected': ref, 'layout': LAYOUT}
     if got.shape != ref.shape:
@@ -259,16 +305,21 @@ def check_interp2d(ctx, x, xf, f, result):
                       'interp2d returned shape %s, expected %s' % (got.shape, ref.shape))
         return
     got = got.astype(float)
-    colscale = np.max(np.abs(np.asarray(table, dtype=float)), axis=0)     # value range of each column
     # float32 arguments are (partly) processed and returned in float32: a few float32 roundings is all correct code can do
     rt = 64 * EPS32 if np.float32 in (x.dtype, xf.dtype, f.dtype) else RTOL
     classes = [O.query_class(q, nodes) for q in qs]
+    for i, row in enumerate(alts):
+        for c, more in enumerate(row):
+            # a query ON a repeated node: the value of any of the equal nodes is acceptable
+            for v in more:
+                if abs(got[i, c] - v) <= rt * loc[i, c] < abs(got[i, c] - ref[i, c]):
+                    ref[i, c] = v
     for names, clause in ((('inside',), 'interp2d.inside==columnwise-linear'), (('node',), 'interp2d.on-node==table-row'),
                           (('below', 'above'), 'interp2d.outside==end-row')):
         rows = [i for i, c in enumerate(classes) if c in names]
         if not rows:
             continue
-        okk, idx, err, allowed = tol.worst(got[rows], ref[rows], scale=colscale[np.newaxis, :], rtol=rt)
+        okk, idx, err, allowed = tol.worst(got[rows], ref[rows], scale=loc[rows], rtol=rt)
         ctx.check(okk, clause, wit,
                   'interp2d(x, xf, f): query %r (%s) column %s: got %r expected %r (|diff| %.3g > %.3g); nodes %s'
                   % ((qs[rows[idx[0]]], classes[rows[idx[0]]], idx[1], got[rows][idx], ref[rows][idx], err, allowed,
@@ -283,15 +334,23 @@ def _interp_left_domain(x0, x):
         nodes = _floats(x)
     except Exception:
         return None
-    if not qs or not _nodes_ok(nodes) or not all(math.isfinite(q) for q in qs):
+    if not qs or not _nodes_monotone(nodes) or not all(math.isfinite(q) for q in qs):
         return None
     return scalar, qs, nodes
+
+
+def _is_decreasing_arg(x):
+    try:
+        return _nodes_decreasing(_floats(x))
+    except Exception:
+        return False
 
 
 def check_interp_left(ctx, x0, x, y, result):
     dom = _interp_left_domain(x0, x)
     if dom is None:
-        ctx.observe('interp_left: nodes not strictly increasing / malformed call (not judged)')
+        ctx.observe(OBS_DECREASING_LEFT if _is_decreasing_arg(x) else
+                    'interp_left: nodes not monotone / malformed call (not judged)')
         return
     scalar, qs, nodes = dom
     idx = O.left_values(qs, nodes, None)
@@ -312,6 +371,12 @@ def check_interp_left(ctx, x0, x, y, result):
     r = np.asarray(result)
     shape_ok = (r.ndim == 0) if scalar else (r.shape == (len(qs),))
     gl = r.ravel().tolist()
+    if not _nodes_ok(nodes) and shape_ok:
+        # repeated nodes: the value of any node equal to the greatest node <= q is acceptable
+        ctx.observe('interp_left: repeated node (judged, any of the equal nodes accepted)')
+        cand = O.left_candidates(qs, nodes)
+        exp = [next((v for v in [(k if ylist is None else ylist[k]) for k in reversed(cand[i])] if v == gl[i]), exp[i])
+               for i in range(len(qs))]
     okk = shape_ok and gl == exp
     msg = 'interp_left(%s, nodes %s, y %s) -> %s expected %s' % (qs[:8], nodes[:8], None if ylist is None else ylist[:8],
                                                                gl[:8], exp[:8])
@@ -336,7 +401,8 @@ def _exc_interp_left(args, kwargs, e, st):
     x0, x, y = a['x0'], a['x'], a['y']
     dom = _interp_left_domain(x0, x)
     if dom is None:
-        CTX.observe('interp_left: nodes not strictly increasing / malformed call (not judged)')
+        CTX.observe(OBS_DECREASING_LEFT if _is_decreasing_arg(x) else
+                    'interp_left: nodes not monotone / malformed call (not judged)')
         _mark(e)
         return
     scalar, qs, nodes = dom
@@ -521,8 +587,8 @@ def check_levels(ctx, values, ind, result, ind_given=True):
         shape_ok = len(result) == 2
     except Exception:
         got, shape_ok = np.zeros(2), False
-    m = max(abs(v) for v in x)
-    okk = shape_ok and tol.close(got, np.array(ref), scale=m, rtol=_rtol_for(arr, 32))
+    # each level is judged relative to the largest sample of ITS side (local scale), not of the whole series
+    okk = shape_ok and tol.close(got, np.array(ref), scale=np.array(O.step_level_scales(x, i)), rtol=_rtol_for(arr, 32))
     ctx.check(okk, 'stepfit.levels==side-means', wit,
               'calc_step_fn_steps_vals(%s%s, ind=%d) = %r, means before/after the split sample = %r'
               % (x[:10], '...' if n > 10 else '', i, result, ref))
@@ -913,6 +979,78 @@ def dress(rng, a):
     return b
 
 
+SIZES8 = [1, 2, 31, 32, 33, 63, 64, 65, 127, 128, 129, 256]      # checklist item 8: 1, 2 and around powers of two
+
+
+def order_entries(rng, q):
+    """The same kind of entries in another order: as drawn (unsorted), ascending, descending, with repeated entries."""
+    if len(q) < 2:
+        return q, 'single'
+    r = rng.random()
+    if r < 0.6:
+        return q, 'unsorted'
+    if r < 0.72:
+        return np.sort(q), 'ascending'
+    if r < 0.84:
+        return np.sort(q)[::-1].copy(), 'descending'
+    return q[rng.integers(0, len(q), size=len(q))], 'repeated'
+
+
+def shape11(rng, n):
+    """Series shapes the statement does not forbid (checklist items 10 and 11). Returns (float64 array, name)."""
+    k = int(rng.integers(0, 11))
+    t = np.arange(n, dtype=float)
+    if k == 0:
+        x = np.cumsum(np.abs(rng.normal(size=n))) * float(rng.choice([-1.0, 1.0])) + float(rng.normal())
+        name = 'monotone'
+    elif k == 1:
+        x = -np.abs(rng.normal(size=n)) - float(rng.uniform(0, 3))
+        name = 'one-sided-negative'
+    elif k == 2:
+        x = rng.normal(size=n)
+        x[rng.random(n) < 0.4] = 0.0
+        name = 'zeros-inside'
+    elif k == 3:
+        x = float(rng.uniform(0.5, 3)) * (-1.0) ** t + (rng.normal(size=n) * 0.01 if rng.random() < 0.5 else 0.0)
+        name = 'nyquist-alternating'
+    elif k == 4:
+        x = np.zeros(n)
+        j = n - max(1, n // int(rng.integers(3, 9)))
+        x[j:] = rng.normal(size=n - j) * 3
+        name = 'tail-heavy'
+    elif k == 5:
+        # a single step between two constant levels, also at the first / last possible position
+        j = int(rng.choice([1, n - 1, int(rng.integers(1, max(2, n)))])) if n > 1 else 0
+        a, b = float(rng.choice([-4.0, 0.0, 1.0, 2.5])), float(rng.choice([-1.0, 0.0, 3.0, 7.25]))
+        x = np.where(t < j, a, b)
+        name = 'single-step-constant-sides'
+    elif k == 6:
+        x = np.full(n, float(rng.choice([0.0, 1.0, -2.0])))
+        x[int(rng.integers(n))] += float(rng.choice([-1.0, 1.0, 5.0]))
+        name = 'single-changed-sample'
+    elif k == 7:
+        # one sample 1e3 .. 1e12 times larger than the steps between the others (dynamic range inside the series)
+        x = rng.normal(size=n)
+        x[int(rng.choice([0, n - 1, int(rng.integers(n))]))] = float(rng.choice([-1.0, 1.0])) * 10.0 ** rng.uniform(3, 12)
+        name = 'spike-dynamic-range'
+    elif k == 8:
+        x = rng.normal(size=n) * 0.2 + np.where(t < n // 2, 5.0, -5.0)
+        x[0], x[-1] = 9.0, -9.0
+        name = 'non-zero-ends'
+    elif k == 9:
+        x = np.zeros(n)
+        j = int(rng.integers(n))
+        x[j:] = float(rng.choice([-1.0, 1.0]))
+        if rng.random() < 0.5:
+            x[:j] = 0.0
+        name = 'zero-then-step'
+    else:
+        x = np.round(rng.normal(size=n)) * 0.5
+        x[:max(1, n // 3)] = 0.0
+        name = 'rest-at-zero-start'
+    return x, name
+
+
 def wide_scale(rng):
     """Overall scale: 1, a power of two, or 10^U(-12, 12)."""
     u = rng.random()
@@ -923,10 +1061,18 @@ def wide_scale(rng):
     return 1.0
 
 
-def gen_nodes(rng):
+def repeat_nodes(rng, nodes):
+    """Some nodes repeated two or three times (a monotone, not strictly increasing node set)."""
+    cnt = rng.choice([1, 1, 1, 2, 3], size=len(nodes))
+    cnt[int(rng.integers(len(nodes)))] = int(rng.integers(2, 4))
+    return np.repeat(nodes, cnt)
+
+
+def gen_nodes(rng, m_fixed=None):
     """Strictly increasing node set (float64 or int64) and the name of its class."""
     for _ in range(20):
-        m = int(rng.choice([1, 2, 3, 4, 5, 6, 7, 8], p=[.03, .17, .15, .15, .15, .15, .1, .1]))
+        m = int(rng.choice([1, 2, 3, 4, 5, 6, 7, 8], p=[.03, .17, .15, .15, .15, .15, .1, .1])) if m_fixed is None \
+            else m_fixed
         k = int(rng.integers(0, 6))
         if k == 5:
             # spacing far below the magnitude of the nodes (but >= 1e3 ulp, so the nodes stay distinct)
@@ -969,6 +1115,8 @@ def gen_queries(rng, nodes, nq=None, below=True):
     span = float(nf[-1] - nf[0]) if m > 1 else max(1.0, abs(float(nf[0])))
     if nq is None:
         nq = int(rng.choice([1, 2, 3, 4, 5, 6, 30], p=[.1, .15, .2, .2, .15, .15, .05]))
+        if rng.random() < 0.1:
+            nq = int(rng.choice(SIZES8))
     r_ = rng.random(nq)
     q = np.empty(nq)
     for i in range(nq):
@@ -1074,10 +1222,22 @@ def drive_interp(ctx, eqsig, rng, n_cases):
         all_int = rng.random() < 0.18
         if all_int:
             nodes, ncls = gen_int_nodes(rng)
+        elif rng.random() < 0.1:
+            nodes, ncls = gen_nodes(rng, m_fixed=int(rng.choice(SIZES8[2:])))
+            ncls += '-m%d' % len(nodes)
         else:
             nodes, ncls = gen_nodes(rng)
+        repeated = rng.random() < 0.06
+        if repeated:
+            nodes = repeat_nodes(rng, nodes)
+            ncls = 'repeated-nodes-' + ('int' if all_int else 'float')
         m = len(nodes)
         f = gen_table(rng, m)
+        if f.dtype.kind == 'f' and m > 1 and rng.random() < 0.08:
+            # dynamic range inside the table: one row 1e3 .. 1e12 times larger than the others
+            f = f.copy()
+            f[int(rng.integers(m))] *= 10.0 ** rng.uniform(3, 12)
+            ncls += '+bigrow' 
         if all_int:
             q = gen_int_queries(rng, nodes)
             u = rng.random()
@@ -1102,6 +1262,12 @@ def drive_interp(ctx, eqsig, rng, n_cases):
                         q = q.astype(np.float32)
                     if which in (0, 3):
                         f = f.astype(np.float32)
+        q, qorder = order_entries(rng, q)
+        ctx.observe('interp queries: ' + qorder)
+        if not repeated and m > 1 and rng.random() < 0.02:
+            # the same table written from the largest node down (information only: the library does not handle it)
+            nodes, f = np.ascontiguousarray(nodes[::-1]), np.ascontiguousarray(f[::-1])
+            ncls = 'decreasing-nodes' 
         q, nodes, f = dress(rng, q), dress(rng, nodes), dress(rng, f)
         nf = np.asarray(nodes, dtype=float)
         qf = np.asarray(q, dtype=float)
@@ -1121,7 +1287,9 @@ def drive_interp(ctx, eqsig, rng, n_cases):
             # the node array itself as the query array (one object for two parameters)
             _interp_calls(ctx, eqsig, rng, nodes, nodes, f, int(rng.integers(2)))
         # left interpolation on the same node set (queries at or above the first node)
-        ql = gen_int_queries(rng, nodes, below=False) if all_int else gen_queries(rng, nodes, below=False)
+        gnodes = np.ascontiguousarray(np.asarray(nodes)[::-1]) if ncls == 'decreasing-nodes' else nodes
+        ql = gen_int_queries(rng, gnodes, below=False) if all_int else gen_queries(rng, gnodes, below=False)
+        ql = order_entries(rng, ql)[0]
         if not all_int and nodes.dtype == np.float32:
             ql = np.maximum(ql.astype(np.float32), nodes[0])
         yk = int(rng.integers(0, 7))
@@ -1195,6 +1363,24 @@ def drive_interp_long(ctx, eqsig, rng):
                        'y': None, 'y_container': 'NoneType'}, eqsig.interp_left, ql, nodes)
 
 
+def drive_big_products(ctx, eqsig, rng):
+    """Sizes whose product passes 2**22 where the function builds a matrix (checklist item 8)."""
+    k = 2049
+    if ctx.shard % 2 == 0:
+        nodes = np.cumsum(rng.uniform(0.1, 2.0, size=k)) * wide_scale(rng)
+        f = gen_table(rng, k, ncol=1)
+        q = order_entries(rng, gen_queries(rng, nodes, nq=k))[0]
+        ctx.case(core.digest('interp-product', q, nodes, f), cls='interp-product-2049x2049')
+        _interp_calls(ctx, eqsig, rng, q, nodes, f, 0)
+    else:
+        x, cls = gen_step_series(rng, k) if rng.random() < 0.5 else shape11(rng, k)
+        p = 1 + int(rng.integers(2))
+        ctx.case(core.digest('stepfit-product', x, p), cls='stepfit-product-2049x2049')
+        _call(ctx, 'stepfit.error(p=%d)==sum|dev|%s' % (p, '' if p == 1 else '^2'),
+              lambda: {'fn': 'calc_step_fn_vals_error', 'values': x, 'container': 'ndarray', 'pow': p},
+              eqsig.calc_step_fn_vals_error, x, p)
+
+
 SPECIAL_N = [1, 2, 3, 4, 5, 7, 8, 9, 15, 16, 17, 31, 32, 33, 63, 64, 65, 127, 128, 129, 255, 256, 257, 511, 512, 513]
 
 
@@ -1253,6 +1439,9 @@ def series_container(rng, x):
 
 def gen_roll_series(rng, n):
     amp = float(10.0 ** rng.uniform(-12, 12)) if rng.random() < 0.25 else None
+    if rng.random() < 0.15:
+        x, cls = shape11(rng, n)
+        return x * (amp or 1.0), 'shape11+' + cls
     x, cls = gen.record(rng, n, amp=amp)
     if rng.random() < 0.08:
         # a small signal on a large offset
@@ -1301,6 +1490,12 @@ def drive_rollav(ctx, eqsig, rng, n_cases):
         ctx.observe('rollav series shape: ' + (cls.split('+', 1)[1] if '+' in cls else 'plain'))
         v = rng.random()
         sarg = steps if v < 0.7 else (np.int64(steps) if v < 0.82 else (np.int32(steps) if v < 0.9 else float(steps)))
+        if v > 0.95:
+            # the window size recovered from a quotient of floats, the way a caller computes it from a duration and a time
+            # step: dt/(dt/k) is k or a hair off; a non-integer width is outside "window sizes 1..len" (counted only)
+            d = gen.awkward_dt(rng, steps)
+            sarg = d / (d / steps)
+            ctx.observe('rollav: window from a float quotient, %s' % ('integer-valued' if sarg == steps else 'a hair off'))
         for mode in MODES:
             _roll_call(ctx, eqsig, rng, cont, steps, sarg, mode)
         if c % 6 == 0 and n > 1:
@@ -1366,7 +1561,11 @@ def drive_stepfit(ctx, eqsig, rng, n_cases):
             n = int(rng.integers(31, 121))
         else:
             n = int(rng.choice([255, 256, 257, 511, 512, 513]))
-        x, cls = gen_step_series(rng, n)
+        if rng.random() < 0.25:
+            x, cls = shape11(rng, n)
+            cls = 'shape11-' + cls
+        else:
+            x, cls = gen_step_series(rng, n)
         u = rng.random()
         if u < 0.36:
             v = rng.random()
@@ -1402,7 +1601,8 @@ def drive_stepfit(ctx, eqsig, rng, n_cases):
             elif v < 0.3:
                 vals = tuple(vals.tolist())
                 kind = 'tuple-float'
-            elif v < 0.45:
+            elif v < 0.45 and 1e-15 < float(np.max(np.abs(vals))) and n * float(np.max(np.abs(vals))) ** 2 < 1e36:
+                # float32 only where n*max|x|^2 stays inside the float32 range (the result array is float32)
                 vals = vals.astype(np.float32)
                 kind = 'float32'
             elif v < 0.5:
@@ -1462,8 +1662,13 @@ def gen_period(rng, sc):
     if r < 0.30:
         b = float(rng.choice(O.BOUNDARIES[sc]))
         return float(b * (1.0 + float(rng.choice([-1e-12, 0.0, 1e-12, -1e-6, 1e-6]))))
-    if r < 0.80:
+    if r < 0.76:
         return float(rng.uniform(0, 6))
+    if r < 0.80:
+        # a boundary recovered from a float quotient: (b/k)*k or b/k added k times (a hair off b, or b itself)
+        b = float(rng.choice(O.BOUNDARIES[sc]))
+        k = int(rng.choice([3, 7, 11, 49, 93]))
+        return float((b / k) * k) if rng.random() < 0.5 else float(math.fsum([b / k] * k) if rng.random() < 0.3 else sum([b / k] * k))
     if r < 0.95:
         return float(10.0 ** rng.uniform(-9, 3))
     return float(rng.choice([0.05, 0.2, 0.5, 0.75, 1.0, 2.0, 3.0, 4.0, 10.0]))
@@ -1475,9 +1680,16 @@ INT_PERIODS = [0, 1, 2, 3, 4, 5, 6, 10]
 def gen_period_container(rng, sc):
     """A container of 1..8 periods in the forms c_h_factor accepts: float / integer arrays (any width, also values near
     the top of a narrow dtype's range, whose squares overflow it), lists, tuples, mixed."""
-    n = int(rng.integers(1, 9))
+    n = int(rng.integers(1, 9)) if rng.random() < 0.85 else int(rng.choice(SIZES8))
     k = int(rng.integers(0, 12))
     fl = [gen_period(rng, sc) for _ in range(n)]
+    o = rng.random()
+    if o < 0.1:
+        fl = sorted(fl)
+    elif o < 0.2:
+        fl = sorted(fl, reverse=True)
+    elif o < 0.3:
+        fl = [fl[int(j)] for j in rng.integers(0, n, size=n)]
     it = [int(v) for v in rng.choice(INT_PERIODS, size=n, p=[.06, .22, .2, .2, .1, .1, .06, .06])]
     if k == 0:
         return dress(rng, np.array(fl, dtype=float)), 'f64-array'
@@ -1511,7 +1723,12 @@ def gen_period_container(rng, sc):
 
 
 def gen_factors(rng):
-    """Z, R, N in their NZS 1170.5 ranges."""
+    """Z, R, N in their NZS 1170.5 ranges; a fifth of the cases at the ends of the ranges and in the region Z*R > 0.7
+    (where the code allows a cap that the three functions must treat alike) or exactly at Z*R = 0.7."""
+    if rng.random() < 0.2:
+        z, r = [(0.6, 1.8), (0.6, 1.3), (0.5, 1.4), (0.13, 0.25), (0.13, 1.8), (0.6, 0.25), (0.45, 1.8), (0.39, 1.8)][
+            int(rng.integers(8))]
+        return z, r, float(rng.choice([1.0, 1.72, 1.36]))
     return float(rng.uniform(0.13, 0.6)), float(rng.uniform(0.25, 1.8)), float(rng.uniform(1.0, 1.72))
 
 
@@ -1521,6 +1738,7 @@ def drive_spectra_random(ctx, eqsig, rng, n_cases):
         sc = SITE_CLASSES[int(rng.integers(3))]
         T = gen_period(rng, sc)
         z, r, n = gen_factors(rng)
+        ctx.observe('spectra factors: Z*R %s 0.7' % ('>' if z * r > 0.7 else ('==' if z * r == 0.7 else '<')))
         u = rng.random()
         if u < 0.1:
             z, r, n = 1.0, 1.0, 1.0
@@ -1645,6 +1863,8 @@ def run_shard(ctx):
     drive_rollav(ctx, eqsig, rng, per(8000 if quick else 80000))
     drive_stepfit(ctx, eqsig, rng, per(6400 if quick else 64000))
     drive_spectra_random(ctx, eqsig, rng, per(4800 if quick else 48000))
+    if ctx.shard in (6, 7, 10, 11) or not quick:
+        drive_big_products(ctx, eqsig, rng)
     # a few inputs past 2**16 (quick: one kind per shard; thorough: several of each)
     for rep in range(1 if quick else 4):
         which = (ctx.shard // 4 + rep) % 4 if quick else rep
